@@ -30,7 +30,7 @@ def check(ck):
     r02_4(ck)
     r02_5(ck, sa)
     r02_6(ck, sa)
-    from . import c01, c09
+    from . import c01, c09, c10
     ck.shared('R02.7', 'a process is scheduled from the moment it enters '
               'the simulation until it leaves: every process a structural '
               'update creates is reported to the engine, front entries of '
@@ -39,7 +39,7 @@ def check(ck):
               'scheduler iteration collected is not acted on again in the '
               'next',
               lambda c: c01.r01_5(c, sa.rf), lambda c: c01.r01_14(c, sa.rf),
-              c09.r09_9)
+              c09.r09_9, c10.r10_4)
 
 
 def entry_time_at_start(st, key):
@@ -102,28 +102,24 @@ def r02_1(ck, sa):
     ck.floor('R02.1', n, 4, 'abstract paths that start an update')
     # _process_update forwards its interval argument unchanged
     pu = ck.fn('_process_update', 'core.engine')
-    inv = ck.fn('_invoke_process', 'core.engine')
     params = A.params_of(pu.node)
-    for c in A.calls_in(pu.node, inv.name):
-        a = A.arg_of(c, 1, 'interval')
-        ck.require(A.is_name(a, params[4]), 'R02.1', pu, c,
-                   '_process_update forwards its interval argument',
-                   'the interval handed on is not the one received', c)
-        a = A.arg_of(c, 2, 'states')
-        ck.require(A.is_name(a, params[3]), 'R02.1', pu, c,
-                   '_process_update forwards its states argument',
-                   'the states handed on are not the ones received', c)
-    ip = A.params_of(inv.node)
-    for c in A.calls_in(inv.node, 'send_command'):
+    sent = [c for c in A.calls_in(pu.node, 'send_command')
+            if isinstance(A.arg_of(c, 0, 'command'), ast.Constant) and
+            A.arg_of(c, 0, 'command').value == 'next_update']
+    ck.require(bool(sent), 'R02.1', pu, pu.node.name,
+               '_process_update sends the next_update command', None)
+    for c in sent:
         args = A.arg_of(c, 1, 'args')
         if args is not None:
-            args = expand(inv.node, args, A_stmt(c))
+            args = expand(pu.node, args, A_stmt(c))
         ok = isinstance(args, ast.Tuple) and len(args.elts) == 2 and \
-            A.is_name(args.elts[0], ip[1]) and A.is_name(args.elts[1], ip[2])
-        ck.require(ok, 'R02.1', inv, c,
-                   'next_update is sent (interval, states) in that order',
-                   'next_update command arguments are not (interval, '
-                   'states)', c)
+            A.is_name(args.elts[0], params[4]) and A.is_name(
+                args.elts[1], params[3])
+        ck.require(ok, 'R02.1', pu, c,
+                   'next_update is sent (interval, states) in that order, '
+                   'the arguments _process_update received',
+                   'next_update command arguments are not the (interval, '
+                   'states) that _process_update received', c)
     # _calculate_update (steps) forwards its interval to both
     cu = ck.fn('Engine._calculate_update', 'core.engine')
     cp = A.params_of(cu.node)
